@@ -56,6 +56,7 @@ type FuncReport struct {
 	Error       string   `json:"error,omitempty"`
 	Warnings    []string `json:"warnings,omitempty"`
 	Trusted     string   `json:"trusted,omitempty"`
+	File        string   `json:"file,omitempty"`
 	Vacuity     string   `json:"vacuity"`
 	Seconds     float64  `json:"exec_seconds"`
 }
@@ -234,6 +235,9 @@ func runCheck(o *Options) int {
 		if fn == nil {
 			fr.Error = "STALE: function not found in the current tree"
 			continue
+		}
+		if ps := posString(prog, fn.Pos()); ps != "" {
+			fr.File = strings.Split(ps, ":")[0]
 		}
 		if c.Inline && len(c.Requires) == 0 && len(c.Ensures) == 0 {
 			// no contract of its own: its body is executed (and its obligations generated) inside every caller under contract
